@@ -72,7 +72,7 @@ var vfA9Grants = map[string][]string{"good": {"t0", "t1"}, "eph": {"x#ephemeral"
 
 func vfA9NewAuthd() *vfA9Authd {
 	a := &vfA9Authd{seen: map[string]string{}}
-	a.srv = httptest.NewServer(http.HandlerFunc(func(w http.ResponseWriter, r *http.Request) {
+	a.srv = vfHTTPServer(http.HandlerFunc(func(w http.ResponseWriter, r *http.Request) {
 		r.ParseForm()
 		secret := r.Form.Get("secret")
 		line := "fail"
@@ -144,9 +144,7 @@ func vfA9Start(id string, authAddr string) *vfE3Node {
 		opts.DeflateEnabled = true
 		opts.SnappyEnabled = true
 	}
-	opts.TCPAddress = "127.0.0.1:0"
-	opts.HTTPAddress = "127.0.0.1:0"
-	opts.HTTPSAddress = "127.0.0.1:0"
+	opts.TCPAddress, opts.HTTPAddress, opts.HTTPSAddress = vfLoop3()
 	n, err := New(opts)
 	if err != nil {
 		panic(err)
@@ -723,8 +721,7 @@ func TestVerifE3TickerChild(t *testing.T) {
 	opts.LogLevel = lg.ERROR
 	opts.DataPath = vfE3DataDir()
 	defer os.RemoveAll(opts.DataPath)
-	opts.TCPAddress = "127.0.0.1:0"
-	opts.HTTPAddress = "127.0.0.1:0"
+	opts.TCPAddress, opts.HTTPAddress = vfLoop2()
 	opts.HTTPSAddress = ""
 	if s := os.Getenv("VERIF_OBT"); s != "" {
 		var n int64
